@@ -309,14 +309,27 @@ class Check:
         confirmed = False
         out = ""
         if o.get("replay"):
-            try:
-                with tempfile.TemporaryDirectory(prefix="pyvc_replay_") as scratch:   # never write into /repo
-                    p = subprocess.run([NATIVE_PY, "-c", o["replay"]], capture_output=True, text=True, timeout=600,
-                                       cwd=scratch, env=dict(os.environ, PYTHONPATH=os.path.join(loader.REPO, "src")))
-                out = (p.stdout + p.stderr)[-4000:]
-                confirmed = any(ln.startswith("CONFIRMED") for ln in p.stdout.splitlines())
-            except Exception as e:  # replay machinery failure is not a confirmation
-                out = f"replay failed to run: {e!r}"
+            # identical witness scripts run once per check; all native replays of one run share a budget of 15 minutes so
+            # that a check with many violated obligations still terminates in bounded time (a skipped replay is not a
+            # confirmation: the VIOLATION line then ends with no-failing-input-found)
+            cache = self.__dict__.setdefault("_replay_cache", {})
+            spent = self.__dict__.setdefault("_replay_spent", [0.0])
+            if o["replay"] in cache:
+                out, confirmed = cache[o["replay"]]
+            elif spent[0] > 900.0:
+                out = "replay skipped: the native replay budget of this run (900 s) is exhausted"
+            else:
+                t0 = time.time()
+                try:
+                    with tempfile.TemporaryDirectory(prefix="pyvc_replay_") as scratch:   # never write into /repo
+                        p = subprocess.run([NATIVE_PY, "-c", o["replay"]], capture_output=True, text=True, timeout=600,
+                                           cwd=scratch, env=dict(os.environ, PYTHONPATH=os.path.join(loader.REPO, "src")))
+                    out = (p.stdout + p.stderr)[-4000:]
+                    confirmed = any(ln.startswith("CONFIRMED") for ln in p.stdout.splitlines())
+                except Exception as e:  # replay machinery failure is not a confirmation
+                    out = f"replay failed to run: {e!r}"
+                spent[0] += time.time() - t0
+                cache[o["replay"]] = (out, confirmed)
         rec = {
             "property": self.prop,
             "failed_obligation": o["id"],
